@@ -56,9 +56,10 @@ def install_determinism():
     _installed = True
 
 
-def reset_determinism():
-    _counter["uuid"] = 0
-    _counter["clock"] = 0
+def reset_determinism(salt: int = 0):
+    """salt separates id and time ranges of successive processes working on the same database file."""
+    _counter["uuid"] = salt * 1_000_000
+    _counter["clock"] = salt * 10_000_000
 
 
 def template_db() -> str:
